@@ -10,6 +10,7 @@ mod c18;
 mod c19;
 mod gen;
 mod refmodel;
+mod watch;
 
 fn main() {
     let ctx = qvlib::Ctx::from_args(&["C15", "C18", "C19"]);
